@@ -5,13 +5,15 @@
    and whose two shared tables are those of a C13 [session] (a sequence of searches from legal positions, started
    on empty tables).  Hence the end-to-end theorems hold after ANY such session. *)
 From Coq Require Import NArith ZArith List Bool Lia.
-From Clemens Require Import Base.Res Base.Word Base.Bytes Pos.Types Pos.Position Pos.Fen Pos.Inv
-     Eval.Eval Search.TT Search.Negamax Search.SearchStruct Search.GoInst
+From Clemens Require Import Base.Res Base.Word Base.Bytes Pos.Types Pos.Position Pos.Fen Pos.Inv Pos.ZobristProofs
+     Pos.ZobristInst Eval.Eval Search.TT Search.Negamax Search.SearchStruct Search.GoInst
      Uci.ParseGo Uci.ParseGoProofs Uci.Input Uci.InputProofs Uci.GoLineSpec Uci.Game Uci.Engine Uci.EngineInst.
 From Clemens.C13Mate Require Import MateDefs MateExamples.
 From Clemens.C13Bridge Require Import Bridge Seq.
 From Clemens Require Import Rules.Abs Rules.Fide.
+From Clemens.C03Text Require Import GameReplay TextExamples.
 From Clemens.C03Recon Require Import FideText Recon.
+From Clemens.C15Bound Require Import Material Play.
 From ClemensGen Require Import GoConsts.
 From Clemens.EngineE2E Require Import EngBase EngDispatch EngState EngSearch EngE2E EngText.
 Import ListNotations.
@@ -35,11 +37,18 @@ Definition position_fen_line (line : bytes) : Prop :=
     fide_game (abs p0) fms s /\ (List.length fms <= 1024)%nat /\
     first_command line w_position (fen_tokens six fms).
 
+(* the general form: any `position` command that sets a game whose root is a [legal_pos] and which fits the repetition
+   stack (instances: the two above; `position startpos` and `position fen F1 .. F6` without the word `moves`) *)
+Definition position_sets_legal (line : bytes) : Prop :=
+  exists toks g, first_command line w_position toks /\ toks <> [] /\
+    new_position_cmd go_keys unicode_digit_tbl se_history_size toks = NPSet g /\
+    legal_pos (g_pos g) /\ (List.length (g_hist g) <= 1024)%nat.
+
 (* [in_domain_line e line]: every line that is not a `position` command (uci, isready, ucinewgame, stop, go with any
    parameters, garbage ...), and the `position` commands above *)
 Definition in_domain_line (e : engine) (line : bytes) : Prop :=
   (forall ts, handle_line V line <> CPosition ts) \/
-  position_startpos_line line \/ position_fen_line line \/ position_rejected e line.
+  position_startpos_line line \/ position_fen_line line \/ position_rejected e line \/ position_sets_legal line.
 
 (* a session all of whose lines are in the domain, each judged in the engine state it meets *)
 Fixpoint in_domain_session (iters fuel : nat) (e : engine) (ls : list (bytes * option N)) : Prop :=
@@ -61,7 +70,7 @@ Definition position_never_set (line : bytes) : Prop :=
 
 Definition in_domain_text (line : bytes) : Prop :=
   (forall ts, handle_line V line <> CPosition ts) \/ position_startpos_line line \/ position_fen_line line \/
-  position_never_set line.
+  position_never_set line \/ position_sets_legal line.
 
 Lemma position_never_set_rejected : forall e line, position_never_set line -> position_rejected e line.
 Proof.
@@ -75,8 +84,38 @@ Qed.
 
 Lemma in_domain_text_line : forall e line, in_domain_text line -> in_domain_line e line.
 Proof.
-  intros e line [H|[H|[H|H]]]; unfold in_domain_line; auto.
-  right. right. right. apply position_never_set_rejected. exact H.
+  intros e line [H|[H|[H|[H|H]]]]; unfold in_domain_line.
+  - left. exact H.
+  - right. left. exact H.
+  - right. right. left. exact H.
+  - right. right. right. left. apply position_never_set_rejected. exact H.
+  - right. right. right. right. exact H.
+Qed.
+
+(* `position startpos` and `position fen F1 .. F6`, without moves *)
+Lemma startpos_only_in_domain : in_domain_text (join [w_position; w_startpos]).
+Proof.
+  right. right. right. right. exists [w_startpos], {| g_pos := hm_p0; g_hist := [] |}.
+  split; [apply first_command_join0; destruct word_plain as (W1 & W2 & _);
+          constructor; [exact W1|constructor; [exact W2|constructor]]|].
+  split; [discriminate|].
+  pose proof TextExamples.go_new_position as N0. change ZobristInst.go_keys with go_keys in N0.
+  split; [exact (proj1 (position_startpos_only go_keys unicode_digit_tbl se_history_size hm_p0 N0))|].
+  split; [|cbn; lia]. cbn [g_pos].
+  split; [exact (new_position_inv _ _ TextExamples.go_new_position)|
+          exact (material_new_position _ _ TextExamples.go_new_position)].
+Qed.
+
+Lemma fen_only_in_domain : forall six p0, List.length six = 6%nat -> Forall plain_token six ->
+  new_from_fen go_keys unicode_digit_tbl (join_sp six) = Ok p0 -> legal_pos p0 ->
+  in_domain_text (join (w_position :: w_fen :: six)).
+Proof.
+  intros six p0 L6 P6 Fen HP. right. right. right. right. exists (w_fen :: six), {| g_pos := p0; g_hist := [] |}.
+  split; [apply first_command_join0; destruct word_plain as (W1 & _ & _ & W4 & _);
+          constructor; [exact W1|constructor; [exact W4|exact P6]]|].
+  split; [discriminate|].
+  split; [exact (proj1 (position_fen_only go_keys unicode_digit_tbl se_history_size six p0 L6 Fen))|].
+  split; [exact HP|cbn; lia].
 Qed.
 
 Lemma in_domain_text_session : forall iters fuel ls e,
@@ -184,7 +223,8 @@ Proof.
     intros g X. discriminate.
   - (* position *)
     cbn [andb app].
-    destruct Hdom as [Hn|[(fms & s & G & B & Hfc)|[(six & p0 & fms & s & L6 & Fen & HP & G & B & Hfc)|(ts' & out' & El' & Hrej)]]].
+    destruct Hdom as [Hn|[(fms & s & G & B & Hfc)|[(six & p0 & fms & s & L6 & Fen & HP & G & B & Hfc)|
+                      [(ts' & out' & El' & Hrej)|(toks & g & Hfc & Hne & Hcmd & HL & HB)]]]].
     + exfalso. exact (Hn ts El).
     + destruct (position_startpos_sets e fms s line (engine_ok_not_running _ _ Hok) G B Hfc)
         as (g & Hpos & _ & _ & HL & Hlen).
@@ -195,6 +235,9 @@ Proof.
       rewrite (Hpos iters fuel c) in H. injection H as <- <-.
       apply position_sets_ok; [exact Hok|exact HL|lia].
     + rewrite El in El'. injection El' as <-. rewrite go_handle_eq, El, Hrej in H. injection H as <- _. exact Hok.
+    + rewrite (handle_position iters fuel e line c _ Hfc),
+              (new_position_e_set e toks g (engine_ok_not_running _ _ Hok) Hne Hcmd) in H.
+      injection H as <- <-. apply position_sets_ok; assumption.
   - (* go *)
     rewrite go_handle_eq, El in H. cbn [andb].
     destruct (go_keeps_ok roots iters fuel e ts c e' out Hok H) as [[-> _]|(g & Es & Eg & _ & _ & Hok')].
